@@ -194,10 +194,12 @@ def kfilt(
             sel = collection == c
             xout[sel, :] = kfilt(
                 x=x[sel, :],
-                ntr_pad=0,
-                ntr_tap=None,
+                ntr_pad=ntr_pad,
+                ntr_tap=ntr_tap,
+                lagc=lagc,
                 collection=None,
                 butter_kwargs=butter_kwargs,
+                gpu=gpu,
             )
         return xout
     nx, nt = x.shape
